@@ -62,6 +62,9 @@ def negate(test):
             c = copy.deepcopy(test)
             c.ops = [swap[t]()]
             return c
+    if isinstance(test, ast.BoolOp) and all(isinstance(v, ast.UnaryOp) and isinstance(v.op, ast.Not) or (isinstance(v, ast.Compare) and len(v.ops) == 1
+                                            and isinstance(v.ops[0], (ast.Eq, ast.NotEq, ast.In, ast.NotIn, ast.Is, ast.IsNot))) for v in test.values):
+        return ast.BoolOp(op=ast.And() if isinstance(test.op, ast.Or) else ast.Or(), values=[negate(v) for v in test.values])
     return ast.UnaryOp(op=ast.Not(), operand=copy.deepcopy(test))
 
 
@@ -130,7 +133,7 @@ def _roots(e):
 
 # --------------------------------------------------------------------------------------------------- unconditional rewrites
 
-def inline_new_temps(func, ref_locals, local_names):
+def inline_new_temps(func, ref_locals, local_names, score=None, max_candidates=60):
     """a local that the reference does not know, bound once by `t = <side-effect free expression>`, whose operands are not
     rebound or mutated afterwards, is replaced by its definition at every use"""
     done = []
@@ -203,6 +206,16 @@ def inline_new_temps(func, ref_locals, local_names):
                     unsafe = True
             if unsafe:
                 continue
+            if score is not None:
+                # guided: the inlining is kept only when it brings the function closer to the reference (a renamed temporary of
+                # the reference must stay)
+                tried = getattr(func, '_inl_tried', set())
+                if t in tried or len(tried) >= max_candidates:
+                    continue
+                tried.add(t)
+                func._inl_tried = tried
+                before = score(func)
+                snapshot = _clone(func)
             for l in loads:
                 replace_node(func, l, fix(copy.deepcopy(e), l))
             for _, _, blk in blocks_of(func):
@@ -211,6 +224,10 @@ def inline_new_temps(func, ref_locals, local_names):
                     if not blk:
                         blk.append(fix(ast.Pass(), a))
                     break
+            if score is not None and score(func) <= before:
+                func.body = snapshot.body
+                changed = True          # the tree objects changed: recompute everything, the candidate is remembered as tried
+                break
             done.append(t)
             changed = True
             break
